@@ -47,6 +47,8 @@ type c09op struct {
 	units  []simdisk.Unit
 	low    uint64 // lowest legal head after a crash inside the operation
 	after  string // digest of the victim after the complete operation
+	// manifest: set for the fast-sync operation (lets a restarted node resume it)
+	manifest *snapshot.Manifest
 }
 
 func nodeDigest(n *simnode.Node, addrs []common.Address) string {
@@ -68,12 +70,33 @@ func c09FastSync(r *vfw.Run, s *scen.Scn, twin *simnode.Node, encs map[uint64][]
 		return nil
 	}
 	defer J.Stop()
-	op := &c09op{key: jk.Key, store: J.Ipfs, kind: "fastsync", height: manifest.Height, low: 1, pre: J.Disk.Clone()}
+	op := &c09op{key: jk.Key, store: J.Ipfs, kind: "fastsync", height: manifest.Height, low: 1, pre: J.Disk.Clone(), manifest: manifest}
 	J.Disk.Record = true
 	J.Disk.Journal = nil
+	ferr, pv, st := c09RunFastSync(twin, J, manifest)
+	J.Disk.Record = false
+	if pv != nil {
+		if vfw.IsAbort(pv) {
+			panic(pv)
+		}
+		r.Violate("C09:fast-sync-panicked", "%v\n%s", pv, st)
+	}
+	if ferr != nil {
+		r.Probe("fastsync_op_not_completed")
+		r.Note("fast sync for the crash operation did not complete: %v", ferr)
+		return nil
+	}
+	op.units = J.Disk.Journal
+	J.Disk.Journal = nil
+	op.after = "" // compared through the twin's digest at the manifest height
+	_ = encs
+	return op
+}
+
+// c09RunFastSync lets node J fast-sync to the manifest from the twin's headers (resumes from J's stored preliminary head).
+func c09RunFastSync(twin, J *simnode.Node, manifest *snapshot.Manifest) (ferr error, pv interface{}, st string) {
 	fs := protocol.VerifNewFastSync(J.Chain, J.Ipfs, J.App, manifest, J.SM, J.Bus, J.Addr, J.KeyStore, J.SubMgr, J.Upg)
-	var ferr error
-	pv, st := J.Do(func() {
+	pv, st = J.Do(func() {
 		from, err := fs.PreConsuming(J.Chain.Head)
 		if err != nil {
 			ferr = err
@@ -101,23 +124,7 @@ func c09FastSync(r *vfw.Run, s *scen.Scn, twin *simnode.Node, encs map[uint64][]
 			ferr = fmt.Errorf("headers end without certificate")
 		}
 	})
-	J.Disk.Record = false
-	if pv != nil {
-		if vfw.IsAbort(pv) {
-			panic(pv)
-		}
-		r.Violate("C09:fast-sync-panicked", "%v\n%s", pv, st)
-	}
-	if ferr != nil {
-		r.Probe("fastsync_op_not_completed")
-		r.Note("fast sync for the crash operation did not complete: %v", ferr)
-		return nil
-	}
-	op.units = J.Disk.Journal
-	J.Disk.Journal = nil
-	op.after = "" // compared through the twin's digest at the manifest height
-	_ = encs
-	return op
+	return
 }
 
 func c09GoPolicy(site string) seamrt.GoPolicy {
@@ -307,6 +314,48 @@ func runC09(r *vfw.Run) {
 				if got := nodeDigest(n, addrs); got != op.after {
 					n.Stop()
 					r.Violate("C09:clean-restart-changed-observable-state", "%s: running node %s, restarted %s", what, op.after, got)
+				}
+			}
+			// a fast sync interrupted by the crash is RESUMED by the restarted node (from its stored preliminary head),
+			// finishes, and the node is restarted once more: that start-up, too, must succeed on a consistent chain
+			if op.manifest != nil && k < U && r.Choose("c09.resume", 3) == 0 {
+				disk3 := op.pre.Clone()
+				for _, u := range op.units[:k] {
+					disk3.ApplyUnit(u)
+				}
+				n3 := restart(disk3, what+", resumed")
+				preH := int64(-1)
+				if n3.Chain.PreliminaryHead != nil {
+					preH = int64(n3.Chain.PreliminaryHead.Height())
+				}
+				_ = preH
+				if n3.Chain.Head.Height() >= op.manifest.Height {
+					// the switch had already happened: the downloader never starts a fast sync to a manifest that is not
+					// ahead of the head (createBlockApplier); the first version of this step did, and reported the mess
+					n3.Stop()
+					check(n, op, what)
+					r.Fault("crash_at_storage_unit")
+					r.Case(fmt.Sprintf("%s/%d/%d", scnFp, oi, k), k > 0 && k < U)
+					continue
+				}
+				ferr, pv3, st3 := c09RunFastSync(twin, n3, op.manifest)
+				n3.Stop()
+				if pv3 != nil {
+					if vfw.IsAbort(pv3) {
+						panic(pv3)
+					}
+					r.Violate("C09:resumed-fast-sync-panicked", "%s: %v\n%s", what, pv3, st3)
+				}
+				if ferr == nil {
+					what3 := what + ", fast sync resumed and finished, then restarted again"
+					n4 := restart(disk3, what3)
+					if n4.Chain.Head.Height() != op.height {
+						r.Probe("restart_after_resumed_fast_sync_below_manifest_height")
+					}
+					check(n4, op, what3)
+					r.Fault("crash_resume_fast_sync_restart")
+				} else {
+					r.Probe("resumed_fast_sync_did_not_complete")
 				}
 			}
 			check(n, op, what)
